@@ -28,6 +28,8 @@ class _ConnState:
 
 
 class PduPeer:
+    max_pdus_per_conn = 64
+
     def __init__(self):
         self.pdus_seen: t.List[t.Tuple[int, bytes]] = []  # (conn id, raw PDU)
 
@@ -49,6 +51,12 @@ class PduPeer:
             self.pdus_seen.append((conn.cid, raw))
             idx = st.n_pdus
             st.n_pdus += 1
+            if idx >= self.max_pdus_per_conn:
+                # a client that never stops talking (e.g. an endless handshake) must not hang the simulation
+                conn.world.stats["peer_gave_up"] += 1
+                st.dead = True
+                conn.peer_rst()
+                return
             self.handle_pdu(conn, idx, raw)
 
     def on_client_close(self, conn) -> None:
